@@ -94,6 +94,30 @@ func runScenarios(rep *core.Report, scs []scenario) {
 			exh = false
 			break
 		}
+		// companion pass: histories are merged only if they are permutations of
+		// each other (hidden cache content cannot be merged away), shallower
+		if !s.Menu.KeyEvents {
+			s2 := s
+			s2.Menu.KeyEvents = true
+			s2.Name = s.Name + "+events"
+			s2.Depth = s.Depth - 1
+			if rep.Tier == core.Quick && s2.Depth > 5 {
+				s2.Depth = 5
+			}
+			if s2.Depth >= 3 {
+				cfg2 := xplore.Config{Name: s2.Name, New: s2.newInst, MaxDepth: s2.Depth, Report: rep, Cost: cost, MaxCost: s2.MaxCost}
+				st2 := xplore.Explore(cfg2)
+				st2.Fill(rep, s2.Name+".")
+				if !st2.Completed {
+					exh = false
+				}
+				bounds = append(bounds, fmt.Sprintf("%s: event-multiset keys, depth<=%d, states=%d, transitions=%d, completed=%v", s2.Name, s2.Depth, st2.States, st2.Transitions, st2.Completed))
+				if rep.HitDeadline() {
+					exh = false
+					break
+				}
+			}
+		}
 	}
 	rep.Set("bound", bounds)
 	rep.Set("exhaustive", exh)
